@@ -8,6 +8,7 @@ from importlib import import_module
 from pathlib import Path
 from typing import ClassVar
 
+from schwifty import exceptions
 from schwifty.domain import Component
 
 
@@ -15,7 +16,10 @@ _alphabet: str = string.digits + string.ascii_uppercase
 
 
 def numerify(value: str) -> int:
-    return int("".join(str(_alphabet.index(c)) for c in value))
+    try:
+        return int("".join(str(_alphabet.index(c)) for c in value))
+    except ValueError as e:
+        raise exceptions.InvalidStructure(f"Invalid characters in '{value}'") from e
 
 
 def iso7064(
